@@ -58,6 +58,7 @@ WHITELIST = [
     ("apply_spans_index_of_last", ["arr", "opt_arr"]),
     ("apply_spans_index_of_min", ["arr", "arr", "opt_arr"]),
     ("apply_spans_index_of_max", ["arr", "arr", "opt_arr"]),
+    ("_get_spans_for_2_fields_by_spans", ["arr", "arr"]),
 ]
 
 LEAN_T = {"int": "Int", "bool": "Bool", "arr": "List Int", "barr": "List Bool", "opt_arr": "Option (List Int)"}
@@ -331,6 +332,12 @@ class Kernel:
             raise Unsupported(f"subscript with an index of type {ti}")
         if isinstance(n, ast.Call):
             return self.call(n, defined)
+        if isinstance(n, ast.List):
+            # a list literal of integers (`[]` is taken to be a list of integers: a later append of anything else fails)
+            parts = [self.expr(e, defined) for e in n.elts]
+            if any(p[0] != "int" for p in parts):
+                raise Unsupported("list literal with non-integer elements")
+            return "arr", "[" + ", ".join(p[1] for p in parts) + "]", [b for p in parts for b in p[2]]
         raise Unsupported(f"expression {type(n).__name__}")
 
     def call(self, n, defined):
